@@ -63,9 +63,16 @@ class ExcelType:
 
     @staticmethod
     def _result(value):
-        # Arithmetic that leaves the range of a double is #NUM! in Excel.
+        # Arithmetic that leaves the range of a double is #NUM! in Excel;
+        # that includes exact integers (10^300*10^300), which Python would
+        # carry on with.
         if isinstance(value, float) and not math.isfinite(value):
             raise xlerrors.NumExcelError()
+        if isinstance(value, int) and value.bit_length() > 1023:
+            try:
+                float(value)
+            except OverflowError:
+                raise xlerrors.NumExcelError()
         return Number(value)
 
     def __add__(self, other):
